@@ -141,7 +141,7 @@ def cfg(consts, spec=None, init=None, next_=None, invariants=(), properties=(), 
         postcondition=None, deadlock=False, action_constraints=()):
     lines = ["CONSTANTS"]
     for k, v in consts.items():
-        lines.append("  %s = %s" % (k, tla(v)) if not (isinstance(v, str) and v.startswith("<-")) else "  %s %s" % (k, v))
+        lines.append("  %s = %s" % (k, tla(v)) if not (isinstance(v, str) and v.startswith("<- ")) else "  %s %s" % (k, v))
     if spec:
         lines.append("SPECIFICATION " + spec)
     else:
@@ -187,12 +187,12 @@ def tla(v):
 # verdicts, known findings, evidence
 
 def load_known():
-    path = os.path.join(VERIF, "known_findings.jsonl")
+    path = os.path.join(VERIF, "known_findings.txt")
     known = []
     if os.path.exists(path):
         for line in open(path):
             line = line.strip()
-            if line and not line.startswith("#"):
+            if line and not line.startswith("#") and not line.startswith("fixed:"):
                 known.append(json.loads(line))
     return known
 
